@@ -83,14 +83,14 @@ CHECKS.update({
 })
 
 E3B_NOTE = ("Drives the real Btree over a real Pager on a real file through hook H2 (facade::btree); the structural dump is read through the pager (so it also exercises eviction and re-read with tiny caches). Trusted base: the facade's plumbing (tuple construction, key serialisation, page walk), the BTreeMap model with the harness's own key order, the audit code. "
-            "The schedule/fault content of these two properties is thin: the only environment events are eviction write-backs / re-reads forced by small caches and checkpoints between operations; they are claimed as model-based simulation of a storage component. One payload size per tree and no overflow pages (open findings D31/D31b/D31c/D32). The page-graph audit of whole databases (catalog + all trees) during E1/E2 runs that DESIGN.md planned is not built.")
+            "The schedule/fault content of these two properties is thin: the only environment events are eviction write-backs / re-reads forced by small caches and checkpoints between operations; they are claimed as model-based simulation of a storage component. One payload size per tree and no overflow pages (open findings D31/D31b/D31c/D32). For C11 the whole-database audit (facade dbpages) checks ownership only, not key order, and runs only while no session is open.")
 CHECKS.update({
  "C10": dict(engine="E3b-btreesim", level="exploration", ref="4 (C10), 2.3 (E3b)", note=E3B_NOTE,
    technique="deterministic simulation of the storage component: seeded operation sequences on the real B+tree over a real pager under a configuration swarm (page size, min keys, siblings, caches down to 16 pages, checkpoints), BTreeMap reference model and structural audit after every mutation",
    text="Seeded sequences of 10-400 insert / upsert / update / remove / lookup / scan / checkpoint operations with u64, i64 (negative half) and fixed-width text keys in ascending, descending, random and delete-everything orders; after every operation results equal a BTreeMap with the harness's own comparator, and after every mutation the tree is audited: keys strictly ordered within and across pages, every separator routes, all leaves at one depth, sibling links mirror key order and are mutually inverse, slot counts consistent, no page reached twice."),
  "C11": dict(engine="E3b-btreesim", level="exploration", ref="4 (C11), 2.3 (E3b)", note=E3B_NOTE,
    technique="deterministic simulation of the storage component with a page-ownership audit as invariant after every mutation: each page 1..total_pages is exactly one of tree node / overflow link / free-list member; free list acyclic with recorded head and tail; file does not grow while the free list is non-empty",
-   text="Same seeded runs as C10; the reported invariant is page ownership: after every mutation every page of the file except page zero has exactly one owner (node of the tree, link of one overflow chain, member of the free list), the free list is acyclic and matches its recorded head and tail, and an operation never grows the file while the free list stays non-empty. Scope: one tree per file (the catalog and multi-tree databases are not audited)."),
+   text="Two kinds of seeded runs alternate. Even run indices: the B+tree simulator of C10 with the page-ownership audit after every mutation (every page of the file except page zero is a node of the tree, a link of one overflow chain or a member of the free list, exactly once; the free list is acyclic and matches its recorded head and tail; an operation never grows the file while the free list stays non-empty). Odd run indices: whole-database histories (DDL, DML, drops, rollbacks, checkpoints, reopen) with the same ownership audit over the catalog trees, every visible relation's tree, overflow chains and the free list at every quiescent point."),
 })
 
 CHECKS.update({
